@@ -41,10 +41,11 @@
 **            ran, the bound object, len(current(Exception)) on entry, in the body, in the handler and after
 **            every construct that completes, exit status / diagnostic, and a following ordinary program.
 **
-** Parameters: objs=types|struct|string|int|mixed1|mixed2|mixed3 (what is thrown: singleton types with
+** Parameters: objs=types|struct|string|int|mixed1|mixed2|mixed3|cmptry|cmpthrow (what is thrown: singleton types with
 **             prefix-related names, value objects caught through distinct-but-equal filter objects, or
 **             objects of several types against filters whose entries have several types; see
 **             "Exception objects" below)
+**             pct=0..3|mix (message texts that contain '%'; default mix; see "Message text variants")
 **             msg=0..4|mix (message arguments whose Show uses try/catch/throw itself; see "Message arguments")
 **             kind=chain|seq|seqt depth=N alpha=<codes> ppalpha=<codes> falpha=<codes>
 **             shapes=all|body dyns=all|lex chain=0|1 fork=0|1 fresh=0|1 shard=k/n
@@ -93,8 +94,37 @@ static int Exv_Show(var self, var out, int pos) {
 }
 static var Exv = Cello(Exv, Instance(Cmp, Exv_Cmp), Instance(Show, Exv_Show, NULL));
 
-enum { OBJ_TYPES = 0, OBJ_STRUCT = 1, OBJ_STRING = 2, OBJ_INT = 3, OBJ_MIXED1 = 4, OBJ_MIXED2 = 5, OBJ_MIXED3 = 6 };
-enum { OK_TYPE = 0, OK_STRUCT = 1, OK_STRING = 2, OK_INT = 3 };
+/*
+** objs=cmptry|cmpthrow: value objects of a class whose Cmp function itself uses the exception system before
+** it compares; the objects are both thrown and listed in the filters, each filter entry with its own cmode.
+**   cmptry   (nothing is thrown inside Cmp)  1: try { } catch (e) { }   2: two nested trys   3: two trys in sequence
+**   cmpthrow (Cmp raises and handles)        4: try { throw Inner } catch (e in Inner) { }
+**                                            5: nested, the inner filter does not match   6: throw, handle, then a second try
+** Matching, the bound object and depths must be exactly as for plain values.
+*/
+static var ExcInner; static var ExcInner2;       /* defined with the message arguments below */
+struct Exw { int code; int payload; int cmode; };
+static int Exw_Cmp(var self, var obj) {
+  struct Exw* a = self; struct Exw* b = obj;
+  switch (a->cmode) {
+    case 1: try { } catch (e_) { } break;
+    case 2: try { try { } catch (e_) { } } catch (e_ in ExcInner) { } break;
+    case 3: try { } catch (e_ in ExcInner) { } try { } catch (e_) { } break;
+    case 4: try { throw(ExcInner, "inner, raised and handled inside a Cmp function"); } catch (e_ in ExcInner) { } break;
+    case 5: try { try { throw(ExcInner, "inner, two deep inside a Cmp function"); } catch (e_ in ExcInner2) { } } catch (e_ in ExcInner) { } break;
+    case 6: try { throw(ExcInner2, "inner, raised and handled inside a Cmp function"); } catch (e_) { } try { } catch (e_) { } break;
+    default: break;
+  }
+  return a->code - b->code;
+}
+static int Exw_Show(var self, var out, int pos) {
+  struct Exw* a = self;
+  return print_to(out, pos, "%s", $S((char*)exv_names[(a->code >= 1 && a->code <= 9) ? a->code : 0]));
+}
+static var Exw = Cello(Exw, Instance(Cmp, Exw_Cmp), Instance(Show, Exw_Show, NULL));
+
+enum { OBJ_TYPES = 0, OBJ_STRUCT = 1, OBJ_STRING = 2, OBJ_INT = 3, OBJ_MIXED1 = 4, OBJ_MIXED2 = 5, OBJ_MIXED3 = 6, OBJ_CMPTRY = 7, OBJ_CMPTHROW = 8 };
+enum { OK_TYPE = 0, OK_STRUCT = 1, OK_STRING = 2, OK_INT = 3, OK_CMPTRY = 4 };
 static int objs_mode = OBJ_TYPES;
 
 struct odesc { var obj; int kind, code; char shown[32]; };
@@ -115,6 +145,7 @@ static var mk_obj(int kind, int code, int payload, const char* text, int id) {
   if (kind == OK_TYPE) o = type_by_code(code);
   else if (kind == OK_STRUCT) { struct Exv* v = new_raw(Exv); v->code = code; v->payload = payload; o = v; }
   else if (kind == OK_STRING) o = new_raw(String, $S((char*)(text ? text : exv_names[code])));
+  else if (kind == OK_CMPTRY) { static int nth = 0; struct Exw* v = new_raw(Exw); v->code = code; v->payload = payload; v->cmode = (objs_mode == OBJ_CMPTHROW ? 4 : 1) + (nth++ % 3); o = v; }
   else o = new_raw(Int, $I(code));
   if (id && nreg < 32) { REG[nreg].obj = o; REG[nreg].id = id; nreg++; }
   return o;
@@ -124,7 +155,7 @@ static void mk_thrown(int k, int kind, int code) {
   TH[k].kind = kind; TH[k].code = code;
   TH[k].obj = mk_obj(kind, code, 100 + code, NULL, 0);
   if (kind == OK_TYPE) snprintf(TH[k].shown, sizeof TH[k].shown, "%s", c_str(TH[k].obj));
-  else if (kind == OK_STRUCT) snprintf(TH[k].shown, sizeof TH[k].shown, "%s", exv_names[code]);
+  else if (kind == OK_STRUCT || kind == OK_CMPTRY) snprintf(TH[k].shown, sizeof TH[k].shown, "%s", exv_names[code]);
   else if (kind == OK_STRING) snprintf(TH[k].shown, sizeof TH[k].shown, "\"%s\"", exv_names[code]);
   else snprintf(TH[k].shown, sizeof TH[k].shown, "%d", code);
 }
@@ -138,8 +169,8 @@ static var mk_equal(int k) {
 
 static void objs_setup(void) {
   nreg = 0;
-  if (objs_mode <= OBJ_INT) {
-    int K = objs_mode == OBJ_TYPES ? OK_TYPE : objs_mode == OBJ_STRUCT ? OK_STRUCT : objs_mode == OBJ_STRING ? OK_STRING : OK_INT;
+  if (objs_mode <= OBJ_INT || objs_mode >= OBJ_CMPTRY) {
+    int K = objs_mode == OBJ_TYPES ? OK_TYPE : objs_mode == OBJ_STRUCT ? OK_STRUCT : objs_mode == OBJ_STRING ? OK_STRING : objs_mode >= OBJ_CMPTRY ? OK_CMPTRY : OK_INT;
     for (int k = 1; k <= 3; k++) mk_thrown(k, K, k);
     var ea = mk_equal(1), eb = mk_equal(2), n = NOMATCH(K, 4, NULL), m = NOMATCH(K, 5, NULL);
     FT[1][0] = ea; FT[1][1] = n;  FT[1][2] = m;        /* {A}: first   */
@@ -176,6 +207,7 @@ static void objs_setup(void) {
 static int value_intact(int k) {
   var o = TH[k].obj; int code = TH[k].code;
   if (TH[k].kind == OK_STRUCT) return ((struct Exv*)o)->code == code && ((struct Exv*)o)->payload == 100 + code;
+  if (TH[k].kind == OK_CMPTRY) return ((struct Exw*)o)->code == code && ((struct Exw*)o)->payload == 100 + code;
   if (TH[k].kind == OK_STRING) return strcmp(c_str(o), exv_names[code]) == 0;
   if (TH[k].kind == OK_INT) return c_int(o) == code;
   return 1;
@@ -296,14 +328,30 @@ static var msg_arg(var outer, int slot) {
   return MW[msg_mode == 5 ? 1 + (slot & 3) : msg_mode];
 }
 
-static void plain_thrower(void) { throw(TB, "from a plain function %$", msg_arg(TB, 1)); }
+/*
+** Message text variants (pct=mix default, pct=0..3): the text of a message must never matter.
+**   0 plain   1 a literal "%%" (the final text contains '%')   2 "%s" of a String "50% off"   3 "%$" of a String containing "%d %s %"
+** pct=mix picks the variant by the slot of the throw.
+*/
+static int pct_mode = 4;
+static var PCT_S, PCT_V;
+static int pct_sel(int slot) { return pct_mode == 4 ? ((slot / 4 + slot) & 3) : pct_mode; }
+#define THROW_AT(OBJ, TAG, SLOT, K) do { var o_ = (OBJ); \
+  switch (pct_sel(SLOT)) { \
+    case 1: throw(o_, TAG " 100%% sure, slot %i %$", $I(SLOT), msg_arg(o_, (K))); break; \
+    case 2: throw(o_, TAG " %s, slot %i %$", PCT_S, $I(SLOT), msg_arg(o_, (K))); break; \
+    case 3: throw(o_, TAG " %$, slot %i %$", PCT_V, $I(SLOT), msg_arg(o_, (K))); break; \
+    default: throw(o_, TAG " from slot %i %$", $I(SLOT), msg_arg(o_, (K))); break; \
+  } } while (0)
+
+static void plain_thrower(void) { THROW_AT(TB, "B from a plain function", 1, 1); }
 
 /* one statement slot; the throw is written lexically at the slot */
 #define STMT(SLOT, CODE) do { const int c_ = (CODE); ev_add('S', (SLOT), c_); \
   switch (c_) { \
-    case 1: throw(TA, "A from slot %i %$", $I(SLOT), msg_arg(TA, (SLOT))); break; \
-    case 2: throw(TB, "B from slot %i %$", $I(SLOT), msg_arg(TB, (SLOT) + 1)); break; \
-    case 3: throw(TC, "C from slot %i %$", $I(SLOT), msg_arg(TC, (SLOT) + 2)); break; \
+    case 1: THROW_AT(TA, "A", (SLOT), (SLOT)); break; \
+    case 2: THROW_AT(TB, "B", (SLOT), (SLOT) + 1); break; \
+    case 3: THROW_AT(TC, "C", (SLOT), (SLOT) + 2); break; \
     case 4: case 5: case 6: case 7: fn1(KBASE + c_ - 4); break; \
     case 8: plain_thrower(); break; \
     default: break; \
@@ -616,7 +664,7 @@ static void classify(char* label, size_t n, const struct ev* act, int nact, int 
   else if (is_h_like(ek) && (ak == 'E' || ak == 'N' || ak == 'S')) sym = "raised-exception-lost";
   else if (ak == 0) sym = "trace-ended-early";
   else { snprintf(gen, sizeof gen, "diverged-expected-%c-observed-%c", ek ? ek : '0', ak ? ak : '0'); sym = gen; }
-  snprintf(label, n, "exc/%s/%s", sym, prior);
+  snprintf(label, n, "exc/%s/%s%s", sym, prior, objs_mode == OBJ_CMPTHROW ? "/filter-entry-cmp-handles-an-exception-of-its-own" : "");
 }
 
 /* compares SH->tr with EX; on mismatch records a violation; returns 1 if equal */
@@ -931,13 +979,13 @@ static void deep_rec(int level);
   { int d_ = (int)len(EXC); if (d_ != level + 1) deep_bad('b', level, d_); } \
   if (level == DC.D - 1) { \
     DS.bottom_reached = 1; DS.bottom_depth = (int)len(EXC); \
-    throw(deep_thrown(DC.x), "thrown at the bottom, %i try blocks open %$", $I(DC.D), msg_arg(deep_thrown(DC.x), DC.D)); \
+    THROW_AT(deep_thrown(DC.x), "thrown at the bottom", DC.D + DC.x, DC.D); \
   } else { deep_rec(level + 1); }
 
 #define DEEP_HAND \
   if (DS.nh < 8) { DS.h[DS.nh].level = level; DS.h[DS.nh].obj = objid(e_); DS.h[DS.nh].depth = (int)len(EXC); } \
   DS.nh++; \
-  if (level == DC.T1 && DC.rt) { throw(deep_thrown(3 - DC.x), "thrown by the handler of level %i %$", $I(level), msg_arg(deep_thrown(3 - DC.x), level + 1)); }
+  if (level == DC.T1 && DC.rt) { THROW_AT(deep_thrown(3 - DC.x), "thrown by a handler", level + DC.x + 1, level + 1); }
 
 /* one level: the parameter is never modified, so it may be read after the longjmp */
 static void deep_rec(int level) {
@@ -1023,7 +1071,7 @@ static void deep_run(void) {
     for (int i = 0; i < DS.nh && i < 8; i++) printf(" level %d bound %s at len %d;", DS.h[i].level, objname(DS.h[i].obj), DS.h[i].depth);
     printf(" constructs completed=%d (expected %d), finished=%d final len=%d, following program ok=%d; stderr: %.300s\n", DS.exits, eexits, DS.finished, DS.final_depth, DS.after_ok, buf);
   }
-#define DEEP_VIOL(sym, ...) do { snprintf(label, sizeof label, "exc/deep/depth=%s/%s", cls, sym); \
+#define DEEP_VIOL(sym, ...) do { snprintf(label, sizeof label, "exc/deep/depth=%s/%s%s", cls, sym, objs_mode == OBJ_CMPTHROW ? "/filter-entry-cmp-handles-an-exception-of-its-own" : ""); \
     char det_[700]; snprintf(det_, sizeof det_, __VA_ARGS__); vf_violation(label, kase, "%s: %s (stderr: %.200s)", what, det_, buf); return; } while (0)
   if (r.timed_out) DEEP_VIOL("hang", "child did not finish in 60 s");
   if (r.signaled) {
@@ -1061,7 +1109,7 @@ static void deep_all(void) {
   int M = (int)EXCEPTION_MAX_DEPTH;
   /* a Show method of a message argument opens up to two more try blocks below the innermost level:
   ** they count against MAX too, so the program itself may then only nest to MAX-2 */
-  int top = M - (msg_mode ? 2 : 0);
+  int top = M - (msg_mode ? 2 : objs_mode >= OBJ_CMPTRY ? 1 : 0);    /* a Cmp with two nested trys runs one level below the innermost body */
   int cand[] = { 1, 2, 3, 17, 100, 1000, top - 2, top - 1, top };
   long cap = vf_param_i("maxdepth", top);       /* never above MAX in total: MAX+1 aborts by design */
   if (cap > top) cap = top;
@@ -1103,7 +1151,7 @@ static void show_both(void) {
 static void do_replay(const char* c) {
   if (strncmp(c, "deep:", 5) == 0) {
     if (sscanf(c, "deep:D=%d,T1=%d,T2=%d,x=%d,tf=%d,rt=%d", &DC.D, &DC.T1, &DC.T2, &DC.x, &DC.tf, &DC.rt) != 6 ||
-        DC.D < 1 || DC.D > (int)EXCEPTION_MAX_DEPTH - (msg_mode ? 2 : 0) || DC.x < 1 || DC.x > 2) { fprintf(stderr, "replay: bad deep case '%s'\n", c); exit(2); }
+        DC.D < 1 || DC.D > (int)EXCEPTION_MAX_DEPTH - (msg_mode ? 2 : objs_mode >= OBJ_CMPTRY ? 1 : 0) || DC.x < 1 || DC.x > 2) { fprintf(stderr, "replay: bad deep case '%s'\n", c); exit(2); }
     deep_run();
     printf(vf.nviols ? "replay: violation\n" : "replay: as expected\n");
     vf_finish();
@@ -1144,13 +1192,19 @@ int main(int argc, char** argv) {
   {
     const char* om = vf_param("objs", "types");
     objs_mode = strcmp(om, "struct") == 0 ? OBJ_STRUCT : strcmp(om, "string") == 0 ? OBJ_STRING : strcmp(om, "int") == 0 ? OBJ_INT :
-                strcmp(om, "mixed1") == 0 ? OBJ_MIXED1 : strcmp(om, "mixed2") == 0 ? OBJ_MIXED2 : strcmp(om, "mixed3") == 0 ? OBJ_MIXED3 : OBJ_TYPES;
-    if (objs_mode == OBJ_TYPES && strcmp(om, "types") != 0) { fprintf(stderr, "objs must be types|struct|string|int|mixed1|mixed2|mixed3\n"); return 2; }
+                strcmp(om, "mixed1") == 0 ? OBJ_MIXED1 : strcmp(om, "mixed2") == 0 ? OBJ_MIXED2 : strcmp(om, "mixed3") == 0 ? OBJ_MIXED3 : strcmp(om, "cmptry") == 0 ? OBJ_CMPTRY : strcmp(om, "cmpthrow") == 0 ? OBJ_CMPTHROW : OBJ_TYPES;
+    if (objs_mode == OBJ_TYPES && strcmp(om, "types") != 0) { fprintf(stderr, "objs must be types|struct|string|int|mixed1|mixed2|mixed3|cmptry|cmpthrow\n"); return 2; }
     objs_setup();
     const char* mm = vf_param("msg", "0");
     msg_mode = strcmp(mm, "mix") == 0 ? 5 : (int)strtol(mm, NULL, 10);
     if (msg_mode < 0 || msg_mode > 5) { fprintf(stderr, "msg must be 0..4 or mix\n"); return 2; }
     msg_setup();
+    const char* pm = vf_param("pct", "mix");
+    pct_mode = strcmp(pm, "mix") == 0 ? 4 : (int)strtol(pm, NULL, 10);
+    if (pct_mode < 0 || pct_mode > 4) { fprintf(stderr, "pct must be 0..3 or mix\n"); return 2; }
+    PCT_S = new_raw(String, $S("50% off"));
+    PCT_V = new_raw(String, $S("rate %d of %s is 5%"));
+    vf_extra("message_text", "\"%s\"", pm);
     vf_extra("message_argument_show", "\"%s\"", mm);
     vf_extra("exception_objects", "\"%s\"", om);
   }
